@@ -235,6 +235,8 @@ class WorkerRun:
                     return st.get("value", k)
                 if kind == "raise":
                     raise PlannedError(st.get("msg", f"boom{k}"))
+                if kind == "badret":
+                    return {"a set", "cannot be encoded"}       # the body completes; its return value cannot be encoded
                 if kind == "timeout":
                     await asyncio.sleep(td_us(m.parameters.execution_timeout) / 1e6 + 5)
                     return "late"
@@ -442,6 +444,8 @@ class WorkerRun:
 
 def outcome_sx(st: dict):
     k = st["k"]
+    if k == "badret":
+        return A("raise")        # an execution whose return value cannot be encoded is a failed execution (body entered)
     if k != "eager":
         return A(k)
     pre = []
